@@ -21,9 +21,12 @@ ALLOC1_LOOP = {"janetc_regalloc_1": [{
 def ra_unit(uid, entry, fn, clause, mutants, cls="proved", tier="quick", defines=None, loops=False, extra=None, timeout=120):
     u = {"id": uid, "props": ["C02"], "tier": tier, "class": cls, "clause": clause,
          "src": ["regalloc.c"], "harness": ["comp_regalloc.c"], "entry": entry, "mode": "dfcc",
-         "enforce": ["%s/%s_c" % (fn, fn)], "replace_calls": ["realloc:vc_realloc"],
+         "enforce": ["%s/%s_c" % (fn, fn)],
          "checks": CHECKS, "timeout": timeout,
-         "assumes": [REALLOC_ASSUME, MAXCNT_ASSUME], "mutants": mutants}
+         "assumes": [MAXCNT_ASSUME], "mutants": mutants}
+    if fn in ("janetc_regalloc_1", "pushchunk", "janetc_regalloc_temp", "janetc_regalloc_touch", "janetc_regalloc_check"):
+        u["replace_calls"] = ["realloc:vc_realloc"]       # the only functions that can reach realloc
+        u["assumes"] = [REALLOC_ASSUME, MAXCNT_ASSUME]
     if defines:
         u["defines"] = defines
     if loops:
@@ -166,7 +169,56 @@ for N, tier, tmo in ((4, "quick", 200), (6, "thorough", 600)):
                               "that jump offsets which fit their 24/16-bit field before the pass still fit afterwards is implied here only up to the bound"],
         "mutants": NOOPS_MUT if N == 4 else NOOPS_MUT[:2]})
 
-# @@MORE@@
+# ---------------------------------------------------------------- C15/C02: noop removal, the part that closes for every length
+_pre = "janet_bytecode_remove_noops::"
+_L0 = {"loop_id": "0",
+       "invariants": "0 <= i && i <= def->bytecode_length && new_bytecode_length <= (unsigned)i && (i == 0 ==> new_bytecode_length == 0) && "
+                     "(i > 0 ==> (pc_map[0] == 0 && new_bytecode_length == pc_map[i-1] + ((def->bytecode[i-1] & 0x7F) != 0 ? 1u : 0u))) && "
+                     "(g_k < i - 1 ==> pc_map[g_k+1] == pc_map[g_k] + ((def->bytecode[g_k] & 0x7F) != 0 ? 1u : 0u)) && (g_k < i ==> pc_map[g_k] <= (unsigned)g_k)",
+       "assigns": "i, new_bytecode_length, __CPROVER_object_whole(pc_map)", "decreases": "def->bytecode_length - i",
+       "symbol_map": "i,%s1::1::i;new_bytecode_length,%s1::new_bytecode_length;pc_map,%s1::pc_map;def,%sdef" % (_pre, _pre, _pre, _pre)}
+def _L1(sm):
+    return {"loop_id": "1", "invariants": "0 <= i && i <= def->bytecode_length && 0 <= j && j <= i",
+            "assigns": "i, j, __CPROVER_object_whole(def->bytecode)" + (", __CPROVER_object_whole(def->sourcemap)" if sm else ""),
+            "decreases": "def->bytecode_length - i", "symbol_map": "i,%s1::2::i;j,%s1::j;def,%sdef" % (_pre, _pre, _pre)}
+_E = "def->symbolmap[g_e]"
+_L2 = {"loop_id": "2",
+       "invariants": ("0 <= i && i <= def->symbolmap_length && (g_e < def->symbolmap_length ==> (%s.slot_index == g_slot0 && "
+                      "(g_e >= i ==> (%s.birth_pc == g_birth0 && %s.death_pc == g_death0)) && "
+                      "(g_e < i ==> (g_birth0 == 0xFFFFFFFFu ? (%s.birth_pc == g_birth0 && %s.death_pc == g_death0) : "
+                      "(%s.birth_pc == pc_map[g_birth0] && %s.death_pc == pc_map[g_death0])))))") % ((_E,) * 7),
+       "assigns": "i, __CPROVER_object_whole(def->symbolmap)", "decreases": "def->symbolmap_length - i",
+       "symbol_map": "i,%s1::3::i;pc_map,%s1::pc_map;def,%sdef" % (_pre, _pre, _pre)}
+PCMAP_MUT = [
+    NOOPS_MUT[5],
+    M("last-map-entry-missing", "    pc_map[def->bytecode_length] = new_bytecode_length;\n", "", "postcondition", file="bytecode.c"),
+    M("map-one-short", "janet_smalloc(sizeof(uint32_t) * (1 + def->bytecode_length));", "janet_smalloc(sizeof(uint32_t) * (def->bytecode_length));", "pointer_dereference|postcondition", file="bytecode.c"),
+    M("upvalue-entries-rewritten", "if (sm->birth_pc < UINT32_MAX) {", "if (sm->birth_pc <= UINT32_MAX) {", "postcondition|loop_invariant", file="bytecode.c"),
+    NOOPS_MUT[4],
+]
+PCMAP_MUT[0] = dict(PCMAP_MUT[0], expect="postcondition|loop_invariant")
+PCMAP_MUT[4] = dict(PCMAP_MUT[4], expect="postcondition|loop_invariant")
+for sm in (True, False):
+    units.append({
+        "id": "bytecode.remove_noops.pcmap" + ("" if sm else ".nosourcemap"), "props": ["C15", "C02"], "tier": "quick", "class": "proved",
+        "clause": "janet_bytecode_remove_noops, any bytecode length: the pass's pc map is the counting map (pc_map[0]=0, pc_map[k+1]=pc_map[k]+[instruction k is not a noop]), "
+                  "new length = pc_map[old length] = number of non-noops; symbol births/deaths are remapped through it, upvalue entries and slot indices untouched; "
+                  "only bytecode, its length, source-map and symbol-map arrays change; all accesses other than the jump-target/symbol pc look-ups are in bounds"
+                  + ("" if sm else " (definition without source map)"),
+        "src": ["bytecode.c"], "harness": ["comp_noops_p.c"], "entry": "h_remove_noops_p", "mode": "dfcc",
+        "enforce": ["janet_bytecode_remove_noops/janet_bytecode_remove_noops_c"], "replace_calls": ["realloc:vc_realloc_bc"],
+        "defines": [] if sm else ["-DNOOPS_NOSM"],
+        "loops": {"janet_bytecode_remove_noops": [_L0, _L1(sm), _L2]}, "loop_counts": {"janet_bytecode_remove_noops": 3},
+        "checks": ["bounds-check", "pointer-check", "signed-overflow-check", "undefined-shift-check", "div-by-zero-check"],
+        "skip": ["old_jump_target", "sm->(birth|death)_pc"], "timeout": 200,
+        "assumes": ["janet_smalloc is modelled by malloc recording the block in ghost g_pcmap; janet_sfree is modelled as a no-op so that the map is readable in the post-state",
+                    "realloc is modelled by vc_realloc_bc: new block, old block freed, never NULL (content not claimed in this unit)",
+                    "bytecode length <= 2^26, symbol map length <= 2^20"],
+        "undecided_clauses": ["skipped: bounds of pc_map[jump target] and pc_map[birth/death pc] and the overflow checks of the jump-offset arithmetic: they need the universally quantified "
+                              "precondition 'every jump target / symbol entry is in range' at the loop index, which neither the ghost-index technique nor quantified loop invariants "
+                              "(ignored by SAT, z3 timeout) can carry; decided up to the bound by bytecode.remove_noops.n4/.n6",
+                              "instruction g lands at pc_map[g] with its jump target remapped, source mapping travels: bounded units only"],
+        "mutants": PCMAP_MUT if sm else PCMAP_MUT[:2]})
 
 out = os.path.join(VERIF, "units", "C02_C15.json")
 json.dump({"units": units}, open(out, "w"), indent=1)
